@@ -19,3 +19,5 @@ def run(ck):
     tables.r15_pixbuf_substitution(ck, P)
     codec.r12_simd_helpers(ck, P, 'C01-R8')
     sampling.r15_mask_stride_follows_pipeline(ck, P, 'C01-R9')
+    floatmask.r11_blend_degrees(ck, P)
+    sampling.r16_skip_only_on_zero_mask_word(ck, P)
